@@ -58,9 +58,13 @@ CLAIMED = {
     "C35": dict(
         text=BOUNDED + "every UTF-8 string up to one byte longer than the buffer is pushed through the real "
              "fixed_str_to_bytes/bytes_to_fixed_str pair (N=4 quick, N=8 thorough) and must read back identically or be rejected, "
-             "and storable names must be accepted.",
+             "and storable names must be accepted. In addition names with multi-byte characters around the capacity (byte length != "
+             "character count: 4-, 5- and 6-byte names built from concrete character widths with every well-formed byte value; "
+             "8/9-byte names in the thorough tier) go through the same contract, with concrete lengths so that character-walking "
+             "code stays decidable.",
         note="Trusted: kani-compiler + CBMC. Buffer sizes 4/8 instead of 32/64: the functions are const-generic in MAX_LEN "
-             "and contain no size-specific code.",
+             "and contain no size-specific code. The multi-byte names are built with from_utf8_unchecked from byte ranges that "
+             "c35_shapes_are_utf8 proves valid with the real core::str::from_utf8 on every run.",
         technique="Kani/CBMC symbolic execution of the real round trip over all short UTF-8 strings",
         design="C35"),
 }
